@@ -178,6 +178,8 @@ class FaultHandlerOverrideTlv(AbstractTlvBase):
         fault_handler_ovr_tlv.tlv = CfdpTlv.unpack(data=data)
         if fault_handler_ovr_tlv.tlv.tlv_type != cls.TLV_TYPE:
             raise TlvTypeMissmatch(fault_handler_ovr_tlv.tlv.tlv_type, cls.TLV_TYPE)
+        if len(fault_handler_ovr_tlv.tlv.value) < 1:
+            raise BytesTooShortError(1, len(fault_handler_ovr_tlv.tlv.value))
         fault_handler_ovr_tlv.condition_code = (
             fault_handler_ovr_tlv.tlv.value[0] & 0xF0
         ) >> 4
@@ -188,6 +190,8 @@ class FaultHandlerOverrideTlv(AbstractTlvBase):
     def from_tlv(cls, cfdp_tlv: CfdpTlv) -> FaultHandlerOverrideTlv:
         if cfdp_tlv.tlv_type != cls.TLV_TYPE:
             raise TlvTypeMissmatch(cfdp_tlv.tlv_type, cls.TLV_TYPE)
+        if len(cfdp_tlv.value) < 1:
+            raise BytesTooShortError(1, len(cfdp_tlv.value))
         fault_handler_tlv = cls.__empty()
         fault_handler_tlv.tlv = cfdp_tlv
         fault_handler_tlv.condition_code = (cfdp_tlv.value[0] >> 4) & 0x0F
